@@ -22,7 +22,7 @@ import (
 
 // C03 — Encoders and decoders are mutually inverse at every layer.
 
-const c03Rule = "drawn field structs (MAC/IP/port/ttl/id/seq/xid/flags, payload lengths 0..capacity biased to 0,1,MTU-1,MTU, buffers of any capacity >= the documented minimum with random pre-existing content, DHCP option maps and parameter orders, DNS names) fed to the library encoders; the bytes are decoded by the library views and by the ref decoders and compared with the drawn values. non-trivial = payload length > 0 or >= 2 options; distinct by hash of the drawn struct"
+const c03Rule = "drawn field structs (MAC/IP/port/ttl/id/seq/xid/flags, payload lengths 0..capacity biased to 0,1,MTU-1,MTU, buffers of any capacity >= the documented minimum with random pre-existing content, DHCP option maps and parameter orders, DNS names) fed to the library encoders; frames are finished with Ether.SetPayload or Ether.AppendPayload (copy with or without spare capacity, padding to 60 bytes), headers may get a first body before the real one; the bytes are decoded by the library views and by the ref decoders and compared with the drawn values. non-trivial = payload length > 0 or >= 2 options; distinct by hash of the drawn struct"
 
 type c03Frame struct {
 	V6       bool    `json:"v6"`
